@@ -157,5 +157,47 @@ def run(ctx: Ctx):
         for tid, clause, _ in ctx.validate("Radial_Trace", "Radial_Trace.cfg", rrecs, name="tests_radial"):
             r = rrecs[tid]
             ctx.violation(f"repository tests, TranslationParser {c16.canonical(r['req'])}: {clause}", dict(text=r["text"], request=r["req"], clause=clause))
+    # ---- C07 / C02: grids the tests construct (inputs harvested, the grids are re-built and projected by those drivers)
+    from . import c07, c02
+    from ..gridlife import DIM
+    gspecs = list(dict.fromkeys((t["alg"], t["N"]) for t in taps if t["call"] == "SphereGridFactory.create" and t["alg"] in DIM and 1 <= t["N"] <= 300))
+    gev = [c07.grid_event(a, n) for a, n in gspecs[: (200 if thorough else 40)]]
+    gev = [e for e in gev if not (e["alg"] == "fulldiv" and e["err"] == "ValueError")]
+    for i, e in enumerate(gev):
+        e["tid"] = i
+        ctx.count(1, nontrivial_key=("grid", e["alg"], e["n"]))
+    if gev:
+        for tid, clause, _ in ctx.validate("GridLife_Trace", "GridLife_Trace.cfg", gev, name="tests_grids", timeout=1800):
+            ctx.violation(f"repository tests, grid {gev[tid]['alg']}_{gev[tid]['n']}: {clause}", dict(event={k: v for k, v in gev[tid].items() if k != "signs"}, clause=clause))
+    fspecs = list(dict.fromkeys((t["b"], t["o"], t["t"], t["cartesian"], t["factor"]) for t in taps if t["call"] == "FullGrid"))
+    frecs = []
+    for b, o, t, cart, f in fspecs:
+        size = 1
+        for name in (b, o):
+            m = re.findall(r"\d+", name.replace("3D", "").replace("4D", ""))
+            size *= int(m[-1]) if m else 1
+        try:
+            from molgri.space.translations import TranslationParser
+            tp = TranslationParser(t)
+            size *= tp.get_N_trans()
+            if min(tp.get_trans_grid()) <= 0 or "None" in b + o:          # outside the quantifier of C02 (positive radii, named grids)
+                skipped["fullgrids_outside_c02"] = skipped.get("fullgrids_outside_c02", 0) + 1
+                continue
+        except Exception:
+            continue
+        if size > 320 or cart:          # Product_Trace works on dense n x n matrices; Cartesian grids with open cells are C06's business
+            skipped["fullgrids_too_large_or_cartesian"] = skipped.get("fullgrids_too_large_or_cartesian", 0) + 1
+            continue
+        frecs.append(c02.record(b, o, t, cart, f))
+        if len(frecs) >= (12 if thorough else 4):
+            break
+    for i, r in enumerate(frecs):
+        r["tid"] = i
+        ctx.count(1, nontrivial_key=("fullgrid", r["b"], r["o"], r["t"]))
+    if frecs:
+        for tid, clause, _ in ctx.validate("Product_Trace", "Product_Trace.cfg", frecs, name="tests_fullgrids", timeout=2400):
+            r = frecs[tid]
+            ctx.violation(f"repository tests, FullGrid(b='{r['b']}', o='{r['o']}', t='{r['t']}', factor={r['f']}): {clause}", dict(clause=clause))
+    ctx.cov["grids_from_tests"] = dict(sphere_grids=len(gev), full_grids=len(frecs))
     ctx.cov["recorded_calls_outside_the_spec_languages"] = skipped
     ctx.sample(dict(test_summary=summary, calls=calls, merge_histories=sum(len(v) for v in groups.values()), names=len(nrecs), radial=len(rrecs)))
